@@ -19,6 +19,8 @@ func c10Alphabet(thorough bool) []string {
 		"sub:A:e11f1:L1lc:lc:d", "bind:A:e11f1:L2lc:lc:d", "entrm:A:11", "sub:A:e1f1:L11lc:lc:d",
 		// a request of the removed peer that its reader was still processing when the connection was removed
 		"late:sub:A:e1f1:L1lc", "late:bind:A:e1f1:L2lc", "entrm:A:1:bad",
+		// a second discovery reply that omits an entity
+		"reply2:A:2",
 	}
 	if thorough {
 		a = append(a, "entadd:B:1", "lsub:2:B:2", "lbind:2:A:2", "sub:A:e1f2:L1lc:lc:d", "entrm:B:2", "set:L2lc:2")
@@ -62,7 +64,10 @@ func c10Drivers(thorough bool) []*engine.HDriver {
 	}
 	early := withPrelude(regDriver("teardown-before-discovery", c10EarlyAlphabet(thorough), true, false, nil))
 	earlyW := withPrelude(regDriver("teardown-before-discovery-pending-writes", c10EarlyWriteAlphabet(thorough), true, true, nil))
-	return []*engine.HDriver{regDriver("teardown", c10Alphabet(thorough), true, true, nil), early, earlyW}
+	// a peer answers a repeated discovery read with fewer entities than it announced before, then goes
+	second := regDriver("teardown-after-a-second-discovery-reply", []string{"sub:A:e1f1:L1lc:lc:d", "bind:A:e1f1:L1lc:lc:d", "sub:A:e2f1:L2lc:lc:d", "sub:B:e1f1:L1lc:lc:d",
+		"reply2:A:2", "reply2:A:1", "reply2:A:1,2", "disc:A", "reconn:A", "bind:B:e1f1:L1lc:lc:d", "set:L1lc:2", "lsub:1:A:1"}, true, true, nil)
+	return []*engine.HDriver{regDriver("teardown", c10Alphabet(thorough), true, true, nil), early, earlyW, second}
 }
 
 func init() {
